@@ -104,6 +104,8 @@ def run(job):
         sA, sB, sE = strict(A), strict(B), strict({})
         path = os.path.join(tmp, f"net.{ext}")
         bak = path + ".bak"
+        link = tmp + "-link"
+        os.symlink(tmp, link)
         variants = [("intact", None, da), ("missing", None, None), ("empty", 0, b""), ("zero", len(da), b"\x00" * len(da)),
                     ("zero4096", None, b"\x00" * ((len(da) + 4095) // 4096 * 4096))]
         for k in range(1, len(da), job["stride"]):
@@ -125,15 +127,30 @@ def run(job):
                 with open(bak, "wb") as fh:
                     fh.write(bdata)
             how = "direct" if i % 40 else ["sync", "async"][(i // 40) % 2]
-            got, exc = load(path, how)
+            # the configured path may be spelled in any way that names the file: absolute, relative to the working
+            # directory (the library's default file name is relative), or through a symlinked directory
+            style = ("absolute", "relative", "symlinked-dir")[(i + job.get("seed", 0)) % 3]
+            cwd = os.getcwd()
+            try:
+                if style == "relative":
+                    os.chdir(tmp)
+                    cfg_path = os.path.basename(path)
+                elif style == "symlinked-dir":
+                    cfg_path = os.path.join(link, os.path.basename(path))
+                else:
+                    cfg_path = path
+                got, exc = load(cfg_path, how)
+            finally:
+                os.chdir(cwd)
+            res.count(f"path_style:{style}")
             res.evals += 1
             res.count("loads")
             res.count(f"loads_via_{'gateway' if how != 'direct' else 'persistence'}")
             res.nontrivial((ext, size, kind, off, bakkind))
-            case = {"ext": ext, "size": size, "main": kind, "offset": off, "bak": bakkind, "how": how}
+            case = {"ext": ext, "size": size, "main": kind, "offset": off, "bak": bakkind, "how": how, "path_style": style}
             if exc is not None:
                 res.violation(f"load-raises:{ext}:{type(exc).__name__}",
-                              f"loading raised {type(exc).__name__}: {exc} (main {kind}@{off}, backup {bakkind}, {ext})", case)
+                              f"loading raised {type(exc).__name__}: {exc} (main {kind}@{off}, backup {bakkind}, {ext}, {style} path)", case)
                 continue
             sg = strict(got)
             if kind == "intact":
@@ -145,13 +162,17 @@ def run(job):
             if sg != want:
                 which = "main" if sg == sA else "backup" if sg == sB else "empty" if sg == sE else "partial-or-mixed"
                 res.violation(f"wrong-state:{ext}:got={which}:want={name}:main={kind if kind in ("intact", "missing") else "damaged"}:bak={bakkind}",
-                              f"main {kind}@{off}, backup {bakkind}: loaded the {which} state, expected the {name} state", case)
+                              f"main {kind}@{off}, backup {bakkind}, {style} path: loaded the {which} state, expected the {name} state", case)
             if kind != "intact":
                 res.count("damaged_main_loads")
         res.sample({"ext": ext, "size": size, "backup": bakkind, "main_len": len(da), "variants": len(variants),
                     "example": ["truncated", len(da) // 3]})
     finally:
         shutil.rmtree(tmp, ignore_errors=True)
+        try:
+            os.unlink(tmp + "-link")
+        except OSError:
+            pass
     return res
 
 
@@ -170,11 +191,12 @@ def finish(agg, tier):
         "rule": "for 2-3 base states x {json, pickle}: main file in {intact, missing, empty, every truncation length 1..len-1, "
                 "zero-filled (same length, rounded up to 4096)} x backup in {absent, intact (a different good state), empty, "
                 "truncated, zero-filled}; loaded through Persistence.safe_load_sensors and, for a sample, through a fresh threaded / "
-                "asyncio gateway's start_persistence(). Oracle: no exception; result is the main state iff main is intact, else the "
+                "asyncio gateway's start_persistence(); the configured path is absolute, relative to the working directory or through a symlinked directory in turn. Oracle: no exception; result is the main state iff main is intact, else the "
                 "backup's state iff the backup is intact, else empty - never anything else. distinct = (format, size, damage kind, "
                 "offset, backup kind).",
         "exhaustive": True,
-        "floors": [("damaged_main_loads", c.get("damaged_main_loads", 0), 5000), ("loads_via_gateway", c.get("loads_via_gateway", 0), 100)],
+        "floors": [("damaged_main_loads", c.get("damaged_main_loads", 0), 5000), ("loads_via_gateway", c.get("loads_via_gateway", 0), 100),
+                   ("path_style:relative", c.get("path_style:relative", 0), 1500), ("path_style:symlinked-dir", c.get("path_style:symlinked-dir", 0), 1500)],
         "assumptions": ["only the damage the statement names is generated (no bit flips: a flipped digit is a well-formed file)",
                         "exhaustive = every truncation offset of the small (and, in the thorough tier, every) base file"],
         "show": ["loads", "damaged_main_loads", "loads_via_gateway"],
